@@ -72,16 +72,27 @@ func (x *XObject) Truthy() bool {
 
 // Render returns the canonical text representation
 func (x *XObject) Render() string {
+	b := &strings.Builder{}
+	x.renderTo(b)
+	return b.String()
+}
+
+func (x *XObject) renderTo(b *strings.Builder) {
 	if x.hasDefault() {
-		return Render(x.Default())
+		renderTo(b, x.Default())
+		return
 	}
 
-	pairs := make([]string, 0, x.Count())
-	for _, k := range x.Properties() {
-		rendered := Render(x.properties()[k])
-		pairs = append(pairs, fmt.Sprintf("%s: %s", k, rendered))
+	b.WriteByte('{')
+	for i, k := range x.Properties() {
+		if i > 0 {
+			b.WriteString(", ")
+		}
+		b.WriteString(k)
+		b.WriteString(": ")
+		renderTo(b, x.properties()[k])
 	}
-	return "{" + strings.Join(pairs, ", ") + "}"
+	b.WriteByte('}')
 }
 
 // Format returns the pretty text representation
